@@ -64,7 +64,10 @@ def make_case(tier, seed, index):
     pf = {"p_timed": 1.0, "p_group_junction": 0.5, "p_transfer": 0.7, "n_pops": (1, 3), "n_ord": (3, 6)}
     if tier == "thorough":
         pf["steps"] = (5, 60)
-    return {"kind": "generated", "spec": gen.gen_spec(rng, pf)}
+    pf["p_targetable"] = 0.5
+    spec = gen.gen_spec(rng, pf)
+    rng2 = gen.rng_for(seed, 5, 500000 + index)
+    return {"kind": "generated", "spec": spec, "progspec": gen.gen_progspec(rng2, spec) if rng2.random() < 0.35 else None}
 
 
 def impulse_spec(case):
